@@ -169,7 +169,7 @@ fn check(case: &Case, with_node: bool) -> Vec<(String, String)> {
                 let max_seg = layout.segments.iter().flatten().map(|u| u.time).max().unwrap_or(0);
                 let wal_low = cont[4..6].iter().flatten().any(|u| &u.key_name() == k && u.time < max_seg);
                 v.push((
-                    format!("recover_with_wal!=merge {}{shape}", if wal_low { "wal-entry-below-segment-high-water " } else { "" }),
+                    if wal_low { "recover_with_wal!=merge wal-entry-below-segment-high-water".to_string() } else { format!("recover_with_wal!=merge {shape}") },
                     format!("{}: key {k}: recover_with_wal() folds to {:?}, merge of everything persisted is {:?}", case.show(), p.get(k), expect_all.get(k)),
                 ));
             } else if with_node {
@@ -185,9 +185,9 @@ fn check(case: &Case, with_node: bool) -> Vec<(String, String)> {
                 let want_reads = views(&expect_all_fold);
                 if reads != want_reads {
                     let k = want_reads.keys().chain(reads.keys()).find(|k| want_reads.get(*k) != reads.get(*k)).unwrap();
-                    let kinds: BTreeSet<&str> = all.iter().filter(|u| &u.key_name() == k).map(|u| u.kind.name()).collect();
+                    let class = |o: Option<&String>| o.map(|s| s.split(':').next().unwrap_or("?").to_string()).unwrap_or_else(|| "nothing".into());
                     v.push((
-                        format!("node-reads!=merge kinds={}", kinds.into_iter().collect::<Vec<_>>().join("+")),
+                        format!("node-reads!=merge merged={} read={}", class(want_reads.get(k)), class(reads.get(k))),
                         format!("{}: key {k}: a client reads {:?} after recovery, the merged state says {:?}", case.show(), reads.get(k), want_reads.get(k)),
                     ));
                 }
